@@ -303,6 +303,8 @@ def discharge(ob, timeout_ms):
     ob.solver = 'z3-' + z3.get_version_string()
     r = z3.unknown
     s = None
+    g, _sk = _skolemize_goal(g)
+    hints = _ground_hints(g)
     # portfolio: (1) pure e-matching (fast, can only prove), (2) default z3 incl. MBQI (proves or refutes)
     for cfg, budget in (({'smt.mbqi': False, 'smt.auto_config': False}, min(timeout_ms, 5000)),
                         ('cvc5', min(timeout_ms, 15000)),
@@ -320,6 +322,8 @@ def discharge(ob, timeout_ms):
         for h in ob.hyps:
             s.add(h)
         s.add(z3.Not(g))
+        for h in hints:
+            s.add(h)
         r = s.check()
         if r == z3.unsat:
             ob.solver += ' (e-matching)' if cfg else ''
@@ -353,6 +357,58 @@ def discharge(ob, timeout_ms):
             pass
     ob.ms = int((time.time() - t0) * 1000)
     ob.smt2_head = None
+
+
+def _skolemize_goal(g, counter=[0]):
+    """forall x. body  ->  body[x0/x] for fresh x0 (proving the instance for arbitrary x0 proves the goal)."""
+    consts = []
+    while z3.is_quantifier(g) and g.is_forall():
+        n = g.num_vars()
+        fresh = []
+        for i in range(n):
+            counter[0] += 1
+            fresh.append(z3.Const('sk!%s!%d' % (g.var_name(i), counter[0]), g.var_sort(i)))
+        consts += fresh
+        g = z3.substitute_vars(g.body(), *reversed(fresh))
+    return g, consts
+
+
+def _ground_hints(formula, limit=60):
+    """Ground array-select terms that only occur below a nested quantifier: asserted under a fresh uninterpreted
+    predicate so that e-matching can use them as triggers (a conservative extension: the predicate is unconstrained)."""
+    hints, seen = [], set()
+
+    def has_var(t, cache={}):
+        k = t.get_id()
+        if k in cache:
+            return cache[k]
+        if z3.is_var(t):
+            r = True
+        elif z3.is_quantifier(t):
+            r = True
+        else:
+            r = any(has_var(c) for c in t.children()) if z3.is_app(t) else False
+        cache[k] = r
+        return r
+
+    def walk(t, under_q):
+        if len(hints) >= limit or t.get_id() in seen and not under_q:
+            return
+        seen.add(t.get_id())
+        if z3.is_quantifier(t):
+            walk(t.body(), True)
+            return
+        if z3.is_app(t):
+            if under_q and t.decl().kind() == z3.Z3_OP_SELECT and not has_var(t):
+                hints.append(t)
+            for c in t.children():
+                walk(c, under_q)
+    walk(formula, False)
+    out = []
+    for i, t in enumerate(hints):
+        p_ = z3.Function('hint!%s' % t.sort().name().replace(' ', '_'), t.sort(), z3.BoolSort())
+        out.append(p_(t))
+    return out
 
 
 def _has_quantifier(t):
